@@ -626,6 +626,7 @@ def run(ctx: Ctx):
 
 _F = "urwid/widget/scrollable.py"
 MUTANTS = [
+    Mut("twin-bar-width-floor-args-swapped", "urwid/widget/scrollable.py", "ScrollBar.scrollbar_width", "self._scrollbar_width = max(1, int(width))", "self._scrollbar_width = max(int(width), 1)", twin=True),
     Mut("scrollbar-ratio-unclamped", "urwid/widget/scrollable.py", "ScrollBar.render", "top_weight = min(1.0, float(pos) / max(1, posmax))", "top_weight = float(pos) / max(1, posmax)", "PAIR|widget.scrollable.ScrollBar.render|posmax: position ratio not limited to 1"),
     Mut("scrollable-fit-return-without-forward-flag", "urwid/widget/scrollable.py", "Scrollable.render", "            self._forward_keypress = canv.cursor is not None or ow.selectable()\n", "", "PASS|widget.scrollable.Scrollable.render|return without storing _forward_keypress"),
     Mut("wheel-arithmetic-on-raw-position", _F, "ScrollBar.mouse_event", "            if pos < 0:\n                # a position counted from the end that has not been rendered (normalised) yet\n                pos = max(0, ow.rows_max(ow_size, focus) - ow_size[1] + pos + 1)\n", "", "GUARD|widget.scrollable.ScrollBar.mouse_event"),
